@@ -215,47 +215,47 @@ Definition int_of_oval (v : oval) : res Z :=
 
 (* [fl] = what int(float(v) * 1_000_000_000) gives for the timeout string in
    CPython (supplied by the caller: float parsing is not modelled) *)
+Definition neg_blk (o0 : options) (st : tstate) : res (options * N) :=
+  match opt_get tftp_blksize_name o0 with
+  | None => Ok (o0, ts_block_size st)
+  | Some v =>
+    do z <- int_of_oval v;
+    let bs := Z.min (Z.of_N tftp_max_blksize) z in
+    if (bs <? Z.of_N tftp_min_blksize)%Z then Err BadOptions
+    else Ok (dict_set tftp_blksize_name (OInt bs) o0, Z.to_N bs)
+  end.
+Definition neg_tsize (o1 : options) (st : tstate) : options :=
+  match opt_get tftp_tsize_name o1 with
+  | None => o1
+  | Some _ => match ts_size st with
+              | Some sz => dict_set tftp_tsize_name (OInt (Z.of_N sz)) o1
+              | None => opt_del tftp_tsize_name o1
+              end
+  end.
+Definition neg_timeout (o2 : options) (fl : res Z) (st : tstate) : res Z :=
+  match opt_get tftp_timeout_name o2 with
+  | None => Ok (ts_timeout st)
+  | Some v =>
+    match int_of_oval v with
+    | Ok z => Ok (z * 1000000000)%Z
+    | Err _ => fl
+    end
+  end.
+Definition neg_utimeout (o2 : options) (t1 : Z) : res (options * Z) :=
+  match opt_get tftp_utimeout_name o2 with
+  | None => Ok (o2, t1)
+  | Some v => do z <- int_of_oval v; Ok (opt_del tftp_timeout_name o2, (z * 1000)%Z)
+  end.
+Definition in_range_timeout (t : Z) : bool :=
+  ((Z.of_N tftp_min_timeout_ns <=? t) && (t <=? Z.of_N tftp_max_timeout_ns))%Z.
+
 Definition negotiate (o : options) (fl : res Z) (st : tstate) : res (options * tstate) :=
   let o0 := filter (fun kv => in_strs (fst kv) tftp_options) o in
-  (* blksize *)
-  do x1 <-
-    match opt_get tftp_blksize_name o0 with
-    | None => Ok (o0, ts_block_size st)
-    | Some v =>
-      do z <- int_of_oval v;
-      let bs := Z.min (Z.of_N tftp_max_blksize) z in
-      if (bs <? Z.of_N tftp_min_blksize)%Z then Err BadOptions
-      else Ok (dict_set tftp_blksize_name (OInt bs) o0, Z.to_N bs)
-    end;
-  let o1 := fst x1 in let bs := snd x1 in
-  (* tsize *)
-  let o2 :=
-    match opt_get tftp_tsize_name o1 with
-    | None => o1
-    | Some _ => match ts_size st with
-                | Some sz => dict_set tftp_tsize_name (OInt (Z.of_N sz)) o1
-                | None => opt_del tftp_tsize_name o1
-                end
-    end in
-  (* timeout *)
-  do t1 <-
-    match opt_get tftp_timeout_name o2 with
-    | None => Ok (ts_timeout st)
-    | Some v =>
-      match int_of_oval v with
-      | Ok z => Ok (z * 1000000000)%Z
-      | Err _ => fl
-      end
-    end;
-  (* utimeout *)
-  do x3 <-
-    match opt_get tftp_utimeout_name o2 with
-    | None => Ok (o2, t1)
-    | Some v => do z <- int_of_oval v; Ok (opt_del tftp_timeout_name o2, (z * 1000)%Z)
-    end;
-  let o3 := fst x3 in let t := snd x3 in
-  if ((Z.of_N tftp_min_timeout_ns <=? t) && (t <=? Z.of_N tftp_max_timeout_ns))%Z
-  then Ok (o3, set_neg st bs t)
+  do x1 <- neg_blk o0 st;
+  let o2 := neg_tsize (fst x1) st in
+  do t1 <- neg_timeout o2 fl st;
+  do x3 <- neg_utimeout o2 t1;
+  if in_range_timeout (snd x3) then Ok (fst x3, set_neg st (snd x1) (snd x3))
   else Err BadOptions.
 
 (* ---- the listening handler ---- *)
